@@ -225,7 +225,7 @@ impl BuiltInFunctionList {
                     let mut splitted_string: Vec<&str> = string.split(&split_by).collect();
                     // For some reason split with "" causes splits to have "" at benginning and end
                     // Thats why removes character at start finish
-                    if splitted_string[0] == "" && splitted_string[splitted_string.len() - 1] == "" {
+                    if split_by == "" {
                         splitted_string.remove(0);
                         splitted_string.remove(splitted_string.len() - 1);
                     }
